@@ -65,6 +65,9 @@ pub fn value_j(v: &Value<'_>) -> J {
         Value::Binary(s) => ("bin", s.as_bytes()),
         Value::Octal(s) => ("oct", s.as_bytes()),
         Value::Arbitrary(b) => ("blk", b),
+        // a program data kind this harness does not know (added by a change under test): recorded, then judged
+        #[allow(unreachable_patterns)]
+        _ => ("unknown", &[]),
     };
     json!({"k": k, "t": bytes(t)})
 }
